@@ -125,8 +125,25 @@ func startWatchdog(sc *Scenario, emit func(*RunResult)) func() {
 				spin = true
 			}
 		}
+		busyIn := loopBusyIn(dump)
+		if !spin && busyIn != "" {
+			// the protocol loop is on the CPU inside a command handler: look
+			// again a little later - a handler that is still (or again) on the
+			// CPU at the same place after this long never returns
+			time.Sleep(3 * time.Second)
+			n = runtime.Stack(buf, true)
+			if again := loopBusyIn(string(buf[:n])); again != busyIn {
+				busyIn = ""
+			}
+		}
 		if spin {
 			res.addViolation("C16", "loop_spin_after_input_end", "the protocol loop spins at full CPU after its input scanner ended (over-long line or end of input); the engine no longer reads commands")
+		} else if busyIn != "" {
+			prop := "C16"
+			if sc.Prop == "C12" {
+				prop = "C12"
+			}
+			res.addViolation(prop, "loop_unresponsive:"+busyIn, "the protocol loop has been on the CPU inside "+busyIn+" for more than "+limit.String()+" of real time without reading the next command (no fake time passes there): the engine has become unresponsive")
 		} else {
 			res.Harness = "wall-clock watchdog: run exceeded " + limit.String() + " | " + blockedEngineFrames(dump)
 		}
@@ -134,4 +151,30 @@ func startWatchdog(sc *Scenario, emit func(*RunResult)) func() {
 		os.Exit(7)
 	}()
 	return func() { close(done) }
+}
+
+// loopBusyIn returns the innermost engine function of the protocol loop
+// goroutine if that goroutine is on the CPU (running or runnable) inside a
+// command handler, else "".
+func loopBusyIn(dump string) string {
+	for _, g := range strings.Split(dump, "\n\n") {
+		if !(strings.Contains(g, "[running") || strings.Contains(g, "[runnable")) {
+			continue
+		}
+		if !strings.Contains(g, "uci.(*UciHandler).loop") || !strings.Contains(g, "handleReceivedCommand") {
+			continue
+		}
+		for _, ln := range strings.Split(g, "\n") {
+			ln = strings.TrimSpace(ln)
+			// (the innermost frame of the handler itself: what it calls varies from look to look)
+			if strings.HasPrefix(ln, "github.com/frankkopp/FrankyGo/internal/uci.(*UciHandler).") {
+				f := strings.TrimPrefix(ln, "github.com/frankkopp/FrankyGo/internal/")
+				if i := strings.LastIndex(f, "("); i > 0 {
+					f = f[:i]
+				}
+				return f
+			}
+		}
+	}
+	return ""
 }
